@@ -72,6 +72,12 @@ def alphabet_narrow():
     return evs
 
 
+def alphabet_lx_narrow():
+    """deep, narrow: several groups / sets / claims with service lines (LX numbering across GE/GS, SE/ST, CLM)"""
+    return [('GS', 1), ('GS', 2), ('ST', 1), ('ST', 2), ('CLM',), ('LX', '1'), ('LX', '2'),
+            ('SE', 'ok', 'own'), ('GE', 'ok', 'own'), ('IEA', 'ok', 'own')]
+
+
 def alphabet(thorough):
     evs = []
     for i in (1, 2):
@@ -187,6 +193,13 @@ def expand_narrow(hist):
     return _expand(hist, False, NARROW)
 
 
+def expand_lx_narrow(hist):
+    return _expand(hist, True, LXNARROW)
+
+
+LXNARROW = alphabet_lx_narrow()
+
+
 NARROW = alphabet_narrow()
 
 
@@ -214,8 +227,10 @@ def run(R):
     s1 = bfs.search(R, expand_lx, [[]], d_lx, 'lx', max_states=3000000)
     s2 = bfs.search(R, expand_nolx, [[]], d_nolx, 'nolx')
     s3 = bfs.search(R, expand_narrow, [[]], d_narrow, 'narrow', max_states=3000000)
-    R.cov['searches'] = [s1, s2, s3]
-    R.bounds = {'alphabet': len(ALPHA), 'depth_lx': d_lx, 'depth_nolx': d_nolx, 'depth_narrow': d_narrow, 'narrow_alphabet': len(NARROW),
+    d_lxn = 8 if R.thorough else 6
+    s4 = bfs.search(R, expand_lx_narrow, [[]], d_lxn, 'lx', max_states=3000000)
+    R.cov['searches'] = [s1, s2, s3, s4]
+    R.bounds = {'alphabet': len(ALPHA), 'depth_lx': d_lx, 'depth_nolx': d_nolx, 'depth_narrow': d_narrow, 'narrow_alphabet': len(NARROW), 'depth_lx_narrow': d_lxn, 'lx_narrow_alphabet': len(LXNARROW),
                 'events': 'ISA/GS/ST with id 1|2, body, CLM, LX 1|2, HL n in 1..3 x parent in {none,1,2,x}, SE/GE/IEA x count {true,true+1,x,empty,bare} x id {own,other}'}
     R.assumptions = ['HL/LX verdicts are not compared outside a transaction set, after the first HL parent error of a set, or for LX before any CLM (left open by the statement)',
                      'states are merged on (reader attributes, reference bookkeeping); histories are replayed on a fresh reader for every transition']
